@@ -198,6 +198,9 @@ impl Sched {
                 if asleep_polls >= 4 {
                     asleep_polls = 0;
                     st.blocked[holder] = true;
+                    // a priority scheduler must not keep coming back to it
+                    st.prio[holder] = st.low;
+                    st.low = st.low.saturating_sub(1);
                     let next = Self::choose(&mut st, holder, false);
                     if next != DONE && next != holder {
                         st.lock_handovers += 1;
@@ -239,12 +242,24 @@ impl Sched {
                 waited += 500;
                 if waited >= self.stall_ms {
                     st.stalled = true;
+                    eprintln!(
+                        "HARNESS-STALL state: waiting caller {} cur {} alive {:?} parked {:?} blocked {:?} holder_sleeping {} handovers {}",
+                        tid,
+                        st.cur,
+                        st.alive,
+                        st.parked,
+                        st.blocked,
+                        if st.cur < st.ktid.len() { thread_sleeping(st.ktid[st.cur]) } else { false },
+                        st.lock_handovers
+                    );
                     drop(st);
                     stall_exit("baton never came back: the baton holder is blocked outside controlled seams");
                 }
             }
         }
         st.parked[tid] = false;
+        // it is running again: whatever blocked it earlier is over
+        st.blocked[tid] = false;
         st.progress += 1;
         st
     }
